@@ -4,7 +4,8 @@
    (select / blocked waiting for resume / busy / sending), bounded channels, pause by a controller, with a stop
    request arriving in every reachable state, for the --proxy and --disable-seencheck configurations: NoCrash,
    WorkersGone and the liveness StopReturns.  Each repair (worker watches its context while paused, nil guard in
-   archiver.Stop, seencheck guard) is necessary in the model.
+   archiver.Stop, seencheck guard) is necessary in the model; so is the context case of the postprocessor's outlink
+   feeding loop (negative configuration C03_model_nofeedguard, rejected on StopReturns).
 2. The real pipeline, one process per (configuration, stop moment): workers 1-3, WARC pool 1-2, sync / async
    writing, rate limiter on / off, seencheck on / off, direct / SOCKS5 proxy; stop while idle, after the k-th
    occurrence of a progress event (queue claim, each stage's take, a response arriving, a finish), in the middle
@@ -38,6 +39,13 @@ def run(ctx):
     if not r.ok:
         print(r.out[-3000:])
         raise vf.Inconclusive("Stop model violates %s (specification error)" % r.violated)
+    # negative configuration: the postprocessor's outlink feeding loop without the context case (a bare channel send)
+    # must make the model lose StopReturns - stop while paused with a worker feeding into a channel nobody drains
+    rn = ctx.tlc("Stop", "C03_model_nofeedguard.cfg", timeout=1500, name="model-nofeedguard")
+    ctx.log("Stop model without the feeding loop's context case: rejected=%s" % (not rn.ok))
+    if rn.ok or "Temporal property StopReturns was violated" not in rn.out:
+        print(rn.out[-2000:])
+        raise vf.Inconclusive("Stop model accepts an unguarded outlink feeding loop (specification error)")
     ctx.build_harness(("zeno-verif",))
     if ctx.replay:
         jobs = []
